@@ -274,9 +274,19 @@ def loop_rules(body, sig):
     b = rule_sub("R13.dedup->assumed-contract", r"\b(\w+)\.dedup\(\);", lambda m: f"vpv_dedup(&mut {m.group(1)});", b)
     # R15: usize::saturating_sub on a simple receiver -> assumed-contract helper (templates using it define vpv_saturating_sub)
     b = rule_sub("R15.saturating_sub->assumed-contract", r"((?:\w+\.)*\w+(?:\(\))?)\.saturating_sub\(", lambda m: f"vpv_saturating_sub({m.group(1)}, ", b)
+    # R17: `Q.iter().position(|e| e.timestamp OP T).unwrap_or(Q.len())` (index of the first element whose timestamp satisfies OP, or the
+    #      length) -> assumed-contract helper vpv_position_ts(&Q, T, TsCmp::<Op>); the comparison operator is KEPT (it is an argument of the helper's contract)
+    opn = {">=": "ge", ">": "gt", "<=": "le", "<": "lt"}
+    b = rule_sub("R17.position-by-timestamp->assumed-contract",
+                 r"((?:\w+\s*\.\s*)*\w+)\s*\.iter\(\)\s*\.position\(\s*\|(\w+)\|\s*\2\.timestamp\s*(>=|<=|>|<)\s*(\w+)\s*\)\s*\.unwrap_or\(\s*((?:\w+\s*\.\s*)*\w+)\.len\(\)\s*\)",
+                 lambda m: f"vpv_position_ts(&{''.join(m.group(1).split())}, {m.group(4)}, TsCmp::{opn[m.group(3)].capitalize()})" if ''.join(m.group(1).split()) == ''.join(m.group(5).split()) else m.group(0), b)
+    # R18: `Q.drain(0..N);` on a VecDeque removes the first N elements -> assumed-contract helper
+    b = rule_sub("R18.drain-front->assumed-contract", r"((?:\w+\.)*\w+)\.drain\(0\.\.(\w+)\);", lambda m: f"vpv_deque_drain_front(&mut {m.group(1)}, {m.group(2)});", b)
+    # R19: `Q.iter().map(Arc::clone).collect()` copies the contents front to back -> assumed-contract helper
+    b = rule_sub("R19.iter-arc-clone-collect->assumed-contract", r"((?:\w+\.)*\w+)\.iter\(\)\.map\(Arc::clone\)\.collect\(\)", lambda m: f"vpv_deque_to_vec(&{m.group(1)})", b)
     # R14: `(COND).then(|| EXPR)` is by definition `if COND { Some(EXPR) } else { None }`
     while True:
-        m = re.search(r"\((?P<c>[^()]*(?:\([^()]*\)[^()]*)*)\)\s*\.then\(\s*\|\|\s*", b)
+        m = re.search(r"(?:\((?P<c>[^()]*(?:\([^()]*\)[^()]*)*)\)|\b(?P<c2>[a-z_]\w*))\s*\.then\(\s*\|\|\s*", b)
         if not m:
             break
         j, d = m.end(), 1
@@ -286,7 +296,7 @@ def loop_rules(body, sig):
             elif b[k] in ")]}": d -= 1
             k += 1
         expr = b[j:k - 1].strip().rstrip(",").strip()
-        b = b[:m.start()] + f"if {m.group('c')} {{ Some({expr}) }} else {{ None }}" + b[k:]
+        b = b[:m.start()] + f"if {m.group('c') or m.group('c2')} {{ Some({expr}) }} else {{ None }}" + b[k:]
         hit("R14.bool-then->if")
     def r11(m):
         pv, s_ = m.group(1), m.group(2)
